@@ -141,5 +141,25 @@ pub open spec fn is_inlined_callee(lm: Option<LineMapping>, next: Option<&Progua
         final(class).original == old(class).original && final(class).obfuscated == old(class).obfuscated && final(class).members == old(class).members,
 {
 """, suffix="\n}\n")
+    # ---------------- final flush after the loop ----------------
+    mfl = [m for m in re.finditer(r"if !class\.original\.is_empty\(\) \{", cf.orig)]
+    if len(mfl) < 2:
+        raise AnchorLost("create_proguard_mapper: final flush (second `if !class.original.is_empty() {`) not found")
+    toks = cf._toks()
+    from vf.rustlex import match_close
+    i = next(ix for ix, t in enumerate(toks) if t[1] == mfl[-1].end() - 1)
+    fb = toks[match_close(cf.orig, toks, i)][2]
+    r4 = Fragment(u, cf.file, mp.src, cf.start + mfl[-1].start(), cf.start + fb, "region", "final-flush")
+    r4.qualname = "%s[final-flush]" % cf.qualname
+    r4.contracted = True
+    r4.props_all = ["C04", "C02"]
+    r4.props_safety = ["C13"]
+    r4.insert_at(0, "proof { axiom_key_models(); }\n        broadcast use group_hash_axioms;\n        ")
+    u.emit(r4, prefix="""fn region_mapper_final_flush<'s>(classes: &mut HashMap<&'s str, ClassMapping<'s>>, class: ClassMapping<'s>)
+    ensures
+        /*@L:last_class_is_stored_like_every_other_one_last_definition_wins:C04,C02*/ final(classes)@
+            == (if class.original@.len() > 0 { old(classes)@.insert(class.obfuscated, class) } else { old(classes)@ }),
+{
+""", suffix="\n}\n")
     u.raw(FOOTER, "footer")
     return u
